@@ -56,7 +56,12 @@ pub proof fn lemma_trim_len(r: Seq<char>, s: Seq<char>)
 // (trim is a function of the text: `trimmed` names its result)
 pub uninterp spec fn trimmed(s: Seq<char>) -> Seq<char>;
 pub assume_specification<'a>[ str::trim ](s: &'a str) -> (r: &'a str)
-    ensures is_trim_of(r@, s@), r@.len() <= s@.len(), r@ == trimmed(s@);
+    ensures is_trim_of(r@, s@), r@.len() <= s@.len(), r@ == trimmed(s@),
+            // (nothing more can be trimmed: the result does not begin or end with white space)
+            r@.len() > 0 ==> !is_ws(r@[0]) && !is_ws(r@[r@.len() - 1]);
+// TRUSTED(T3): the blank is white space
+pub axiom fn axiom_blank_is_ws()
+    ensures is_ws(' ');
 
 // TRUSTED(T3): trimming a trimmed text changes nothing; a cloned char is the char
 pub axiom fn axiom_trim_idempotent(s: Seq<char>)
